@@ -1,21 +1,21 @@
 INIT Init
 NEXT Next
 CONSTANTS
-  Part = "item"
-  MaxAlts = 2
-  MaxSamples = 2
-  MaxCalls = 2
+  Part = "interval"
+  MaxAlts = 1
+  MaxSamples = 1
+  MaxCalls = 1
   Correlated = FALSE
-  AnsOpts = {"a0", "a13", "a12", "a1", "a1f", "a1p", "a1t"}
-  CmpReturns = {"T", "F", "P", "d0", "d13", "Et"}
-  LeafAns = {}
-  LeafCmp = {}
+  AnsOpts = {}
+  CmpReturns = {}
+  LeafAns = {"a0", "a12", "a1", "a1f"}
+  LeafCmp = {"T", "F", "P", "d13"}
   TableGrades = {}
-  ListAns = {}
-  MaxItems = 1
+  ListAns = {"a0", "a12", "a1", "a1f"}
+  MaxItems = 2
   Layouts = {}
   TableOnly = {"g1212"}
-  OkRecomputed = TRUE
+  OkRecomputed = FALSE
 INVARIANT InvStage
 INVARIANT InvRaisedNoVerdict
 INVARIANT InvGradesInUnit
@@ -27,4 +27,5 @@ INVARIANT InvNoLeak
 INVARIANT InvVerdictAgrees
 INVARIANT InvListOrder
 INVARIANT InvAllOrNothing
-INVARIANT InvReturnedWellFormed
+INVARIANT InvOnlyKnownDefect
+INVARIANT InvDefectCause
